@@ -212,7 +212,7 @@ def run(ctx):
     b = {"ok": False, "file": "C13/GenDeployOffsets.v", "failed_lemma": None, "out": ""}
     files = (["C13/GenDeployOffsets.v"] if gen_ok else []) + ["C13/Deploy.v", "C13/DeployProofs.v"] + \
             (["C13/PropsDeploy.v"] if gen_ok else [])
-    b = ctx.coq_build(files)
+    b = ctx.coq_build_cached(files, deps=["C16/Asm.v", "C16/HexBytes.v"])
     n_off, bad_off = (0, [])
     if gen_ok and (COQ / "C13" / "GenDeployOffsets.vo").exists():
         n_off, bad_off = offsets_differential(ctx)
@@ -480,3 +480,9 @@ def run(ctx):
                     "pyrevm as EVM; eth_abi as argument encoder"]
     ctx.assumptions += ["epilogue instruction sequences are hand-modelled (Deploy.v); tie = exact deployed bytes",
                         "module initialisers inside __init__ are not generated (single-file constructors only)"]
+
+
+def prebuild(ctx):
+    gen_offsets(ctx)
+    return ctx.coq_build_cached(["C13/GenDeployOffsets.v", "C13/Deploy.v", "C13/DeployProofs.v", "C13/PropsDeploy.v"],
+                                deps=["C16/Asm.v", "C16/HexBytes.v"])
